@@ -161,7 +161,7 @@ class Ctx:
         if workers is None:
             workers = 1 if mode != "bfs" else min(8, NCPU)
         meta = os.path.join(d, "meta")
-        cmd = ["java", "-XX:+UseParallelGC", "-Xss64m"]
+        cmd = ["java", "-XX:+UseParallelGC", "-XX:ParallelGCThreads=4", "-Xss64m"]
         cmd.append("-Xmx" + (heap or os.environ.get("VERIF_TLC_HEAP", "6g")))
         if view_queue:
             cmd.append("-Dtlc2.tool.queue.IStateQueue=StateDeque")
